@@ -66,11 +66,24 @@ class View:
         return f"{self.buf.name}[{self.offset}:{self.sizes}:{self.strides}]"
 
 
+#: kernels the XDMA executes by itself through its streamer extensions (accelerators/streamers/extensions/*.py,
+#: restated here): (kernel op name, input element type, output element type)
+XDMA_EXTENSION_KERNELS = {("kernel.add", "i32", "i32"), ("kernel.rescale", "i8", "i32"), ("kernel.rescale", "i32", "i8")}
+
+
 def role_of(op) -> str | None:
     """dm / compute / None (every core).  Written from the property statement, not from the repo."""
     if isinstance(op, memref.CopyOp):
         return "dm"
     if isinstance(op, linalg.GenericOp):
+        return "compute"
+    if op.name in ("dart.operation", "dart.schedule", "snax_stream.streaming_region"):
+        acc = op.properties.get("accelerator")
+        if acc is not None and acc.data == "snax_xdma":
+            inner = op.regions[0].block.first_op.regions[0].block.first_op
+            sig = (inner.name, str(inner.operands[0].type), str(inner.results[0].type))
+            if sig in XDMA_EXTENSION_KERNELS:
+                return "dm"
         return "compute"
     return None
 
@@ -88,6 +101,11 @@ def tag_of(op):
 
 class BufferMachine(Machine):
     EXTRA = TABLE
+
+    def by_name(self, op):
+        if op.name == "dart.operation":
+            return (True, _stream)
+        return None
 
     def __init__(self, mod, n_cores=1, sequential=True, roles="rules", burst=0, monitor=True):
         super().__init__(mod)
@@ -321,6 +339,30 @@ def _generic(m: BufferMachine, op, vals, core):
                 pos += 1
             if not m.seq:
                 yield ("mem",)
+    m.oplog.append((core.id, tag, tuple(x.descr() for x in ins + outs), tuple(read)))
+
+
+def _stream(m: BufferMachine, op, vals, core):
+    """a streaming region is an opaque kernel: reads its inputs, writes its outputs."""
+    ins = [m.get(vals, v) for v in op.operands[: len(op.operands) - 1]]
+    outs = [m.get(vals, op.operands[-1])]
+    if not m.mine(op, core):
+        return
+    tag = tag_of(op)
+    desc = f"{op.name}#{tag}"
+    core.hist.append(("op", tag))
+    read = []
+    for v in ins:
+        for i in v.indices():
+            m.access(core, "r", v.buf.name, i, desc)
+            read.append(m.mem[(v.buf.name, i)])
+    if not m.seq:
+        yield ("mem",)
+    h = hashlib.blake2b(repr(read).encode(), digest_size=6).hexdigest()
+    for v in outs:
+        for pos, i in enumerate(v.indices()):
+            m.access(core, "w", v.buf.name, i, desc)
+            m.mem[(v.buf.name, i)] = ("k", tag, 0, pos, h)
     m.oplog.append((core.id, tag, tuple(x.descr() for x in ins + outs), tuple(read)))
 
 
